@@ -1,3 +1,4 @@
--- expect-wf: bad unexpected symbol near ';'
+-- expect-wf[jit]: bad unexpected symbol near ';'
+-- expect-wf[5.3]: ok
 local x = 1;
 ;
